@@ -51,6 +51,11 @@ func mergeMap(vs []any) (any, error) {
 
 // the caller should ensure len(vs) > 1
 func mergeValues(vs []any) (any, error) {
+	if vs[0] == nil {
+		// an untyped nil (e.g. from a node typed any) cannot be merged with anything
+		return nil, fmt.Errorf("(mergeValues) unsupported type: nil value")
+	}
+
 	v0 := reflect.ValueOf(vs[0])
 	t0 := v0.Type()
 	k0 := t0.Kind()
